@@ -27,7 +27,7 @@ func (c c02Case) id() string {
 	return fmt.Sprintf("c02-%s-ssa%v-p%d-%s-%s", c.Method, c.SSA, c.Position, c.Action, c.Target)
 }
 
-var c02Actions = []string{"delete", "recreate-orphan", "recreate-foreign", "give-away", "disown"}
+var c02Actions = []string{"delete", "recreate-orphan", "recreate-nomatch", "recreate-foreign", "give-away", "disown"}
 var c02Targets = []string{"update-target", "delete-target", "adopt-target"}
 
 func TestVerif_C02_Hostile(t *testing.T) {
@@ -104,11 +104,15 @@ func c02Run(t *testing.T, c c02Case, probe bool) int {
 			switch c.Action {
 			case "delete":
 				s.ExtDelete(gvr, ns, targetName, "")
-			case "recreate-orphan", "recreate-foreign":
+			case "recreate-orphan", "recreate-nomatch", "recreate-foreign":
 				old := s.Peek(gvr, ns, targetName)
 				s.ExtDelete(gvr, ns, targetName, "")
 				n := sim.NewObject(sim.WidgetInfo, ns, targetName)
 				sim.SetLabels(n, sim.Labels(old))
+				if c.Action == "recreate-nomatch" {
+					// somebody else's object that merely has the same name
+					sim.SetLabels(n, map[string]string{"app": "somebody-else"})
+				}
 				n["spec"] = sim.Obj{"value": "successor"}
 				if c.Action == "recreate-foreign" {
 					sim.AddOwner(n, foreignOwner, true)
